@@ -107,13 +107,15 @@ def elemStringValue (t : XTree) : String := concat (chunksOne true t)
 /-! ### trigger predicate of known finding F02a
 
 `etree_iter_strings` yields the tail of an element *before* the strings of its descendants.  The
-resulting string differs from the XDM string value only when some proper descendant element has a
-non-empty tail and a non-empty string below it. -/
+resulting string can differ from the XDM string value only when, at some proper descendant element,
+the tail and the string below the element do not commute (`tail ++ below ≠ below ++ tail`; in
+particular both are non-empty). -/
 
 mutual
 def lateOne : XTree → Bool
   | .elem _ _ _ _ kids tail =>
-      ((tail != none && tail != some "") && concat (chunksKids kids) != "") || lateKids kids
+      (concat (optList tail) ++ concat (chunksKids kids) != concat (chunksKids kids) ++ concat (optList tail))
+        || lateKids kids
   | .comment .. => false
   | .pi .. => false
 def lateKids : List XTree → Bool
